@@ -1,0 +1,56 @@
+//go:build verif
+
+package plainmap
+
+// Machine-checked contracts for /verif (gowp). Comment-only file: it adds no code.
+
+// ---- C20 ----
+// JSON write: a string is emitted as its RFC 8259 literal (spec/json.spec)
+//@ func formatStringJSON [C20]
+//@   modifies $none
+//@   ensures result == jsonQuote(s)
+
+// JSON read: string leaves are stored decoded, number leaves raw, other kinds skipped,
+// objects are descended into with the dotted key
+//@ func jsonToPlainStringMap$1 [C20]
+//@   layers contract
+//@   requires result != nil
+//@   trace jsonToPlainStringMap as DESCEND bind derr
+//@   at_call jsonToPlainStringMap requires $0 == newResultKey && $1 == result && $2 == value
+//@   ensures old(resultKey) != "" ==> newResultKey == cat(old(resultKey), ".", old(str(key)))
+//@   ensures old(resultKey) == "" ==> newResultKey == old(str(key))
+//@   ensures dataType == jsonparser.String && result0 == nil ==> has(result, newResultKey) && result[newResultKey] == jsonUnescape(old(str(value)))
+//@   ensures dataType == jsonparser.Number ==> result0 == nil && has(result, newResultKey) && result[newResultKey] == old(str(value))
+//@   ensures dataType == jsonparser.Object ==> result0 == derr
+
+// one flattening step: a non-map leaf is stored under basekey+separator+key, a map is descended into
+//@ func recursiveMapToPlainMapNode [C20]
+//@   layers contract safety
+//@   requires out != nil
+//@   trace recursiveMapToPlainMapNode as DESCEND bind derr
+//@   at_call recursiveMapToPlainMapNode requires $0 == out && $2 == cat(basekey, separator, $k) && $3 == "."
+//@   loop 1 invariant out != nil
+//@   loop 1 step !typeis($v, "map[string]interface{}") ==> has(out, cat(basekey, separator, $k)) && out[cat(basekey, separator, $k)] == $v
+
+// rebuilding: every path segment is created or descended into; index arithmetic is in bounds
+// (a nil map value inside the source is an empty sub-map, outside the property's domain:
+// assignments into a possibly nil node are not claimed)
+//@ func toRecursiveMapCreateNode [C20]
+//@   layers safety
+//@   skip nilmap
+//@   requires rmap != nil
+//@   loop 1 invariant 0 <= i
+//@ func ToRecursiveMap [C20]
+//@   layers safety
+//@   skip nilmap
+//@ func StringMapToRecursiveMap [C20]
+//@   layers safety
+//@   skip nilmap
+
+// writer: index arithmetic in bounds for all key lists
+//@ func plainStringMapToJSON [C20]
+//@   layers safety
+//@   requires index >= 0
+//@   modifies $none
+//@   loop 1 invariant 0 <= i
+//@   ensures i >= 0
